@@ -149,9 +149,23 @@ for it in range(%d):
         up = rnd.random() < 0.5
         spacing = rnd.choice([Fraction(1, 4), Fraction(1, 2), 1])
         d0 = rnd.choice([1000, 11916, 500])
+        block_frames = rnd.choice([1, 4, 16, 16, 64])
+        k = rnd.random()
+        if k < 0.12:
+            # a data block of exactly 276 bytes (69 values), the size of a description block: 3 channels x 23 frames as a short
+            # last block, or 1 channel x 69 frames
+            C, nfr, block_frames = rnd.choice([(3, 23, 64), (3, 87, 64), (1, 69, 69), (1, 138, 69), (3, 46, 23)])
         d1 = d0 - spacing * (nfr - 1) if up else d0 + spacing * (nfr - 1)
+        k = rnd.random()
+        if k < 0.2:
+            # the log stopped off the grid of the spacing: the header's stop depth is not start +- k * spacing
+            d1 += spacing * rnd.choice([Fraction(1, 2), Fraction(-1, 2), Fraction(3, 8), Fraction(11, 8)]) * (1 if not up else -1)
+        elif k < 0.3 and up:
+            d1 = 0       # a stop depth that was never filled in
+        if nfr > 1 and (d1 > d0) == up:
+            d1 = d0 - spacing * (nfr - 1) if up else d0 + spacing * (nfr - 1)
         passes.append(dict(names=[('C%%03d' %% c).encode() for c in range(C)], depth_from=d0, depth_to=d1, spacing=spacing,
-                           frames=[[rnd.choice(VALUES) for c in range(C)] for f in range(nfr)], block_frames=rnd.choice([1, 4, 16, 16, 64])))
+                           frames=[[rnd.choice(VALUES) for c in range(C)] for f in range(nfr)], block_frames=block_frames))
     data = bit.build(passes, rnd)
     cases += 1
     try:
@@ -188,5 +202,5 @@ if bad:
     sys.exit(1)
 """ % (seed, n)
     return [standin.run('bit-files-end-to-end', 'bounded: generated BIT files from /verif/gen/bit.py',
-                        '%d files of 1..3 log passes, 1..20 channels, 1..40 frames, block sizes 1..64 frames, up and down logs; '
+                        '%d files of 1..3 log passes, 1..20 channels, 1..40 frames (and 276-byte data blocks), block sizes 1..69 frames, up and down logs, stop depths on and off the spacing grid; '
                         'values compared within 2**-23 relative (known gen_floats finding)' % n, code)]
